@@ -66,6 +66,23 @@ Theorem C13_pipeline_identity : forall d, pipeline_no_manipulation d = d.
 Proof. exact pipeline_id. Qed.
 Print Assumptions C13_pipeline_identity.
 
+(* glue: an explicitly empty allow / deny / mapping configuration, and response-modifier plugins that
+   hand back what they got (at the endpoint, the backend, or both), change nothing - for documents
+   and for the status and header lines of a no-op reply *)
+Theorem C13_glue_transparent_body : forall r e coll o cc x b,
+  client_body_x r e coll o cc x b = client_body r e coll o cc b.
+Proof. exact client_body_x_eq. Qed.
+Print Assumptions C13_glue_transparent_body.
+
+Theorem C13_glue_transparent_noop : forall r cc x st hs body,
+  noop_client_x r cc x st hs body = noop_client r cc st hs body.
+Proof. exact noop_client_x_eq. Qed.
+Print Assumptions C13_glue_transparent_noop.
+
+Theorem C13_passthrough_plugins_identity : forall p r, through_plugins p r = r.
+Proof. exact through_plugins_id. Qed.
+Print Assumptions C13_passthrough_plugins_identity.
+
 Theorem C13_routers_agree : forall o d, render Gin o d = render Mux o d.
 Proof. exact render_routers_agree. Qed.
 Print Assumptions C13_routers_agree.
@@ -286,6 +303,10 @@ Proof.
     + apply Permutation.perm_swap.
   - apply Permutation.perm_swap.
 Qed.
+(* a non-empty allow list is manipulation (outside the property): the formatter then prunes *)
+Example C13_ex_allow_list_manipulates :
+  format_full ["a"] [] [] "" (DMap [("a", JNull); ("b", JNull)]) = DMap [("a", JNull)].
+Proof. exact allow_list_manipulates. Qed.
 (* a rounded number is rejected by the oracle *)
 Example C13_ex_oracle_rejects :
   spec_body_b EJson false OJson (BDoc (JObj [("n", JNum "12345678901234567890")]))
